@@ -111,3 +111,30 @@ Theorem C08_default_paths_distinct :
   Gen.DaemonMain.events_output_default <> Gen.DaemonMain.audit_pipe_default.
 Proof. exact Proofs.DaemonMainLemmas.default_paths_distinct. Qed.
 Print Assumptions C08_default_paths_distinct.
+
+(* ---------- the three workers' closures, read from the source statement by statement ----------
+   (Gen/WorkerBodies.v, normalised by Model/WorkerWiring.v.)  Each pipe worker first refuses a path that is not a
+   named pipe and returns that error (wrapped, hence non-nil); every worker's result is the result of its entry
+   method — Ingest / Read — called with the errgroup's context: a failure is neither swallowed nor replaced, so
+   eg.Wait() sees it and the group context is cancelled for the siblings. *)
+From AM Require Import Model.WorkerWiring Gen.WorkerBodies Proofs.WorkerWiringTie.
+Theorem C08_worker_wiring_from_source : all_eq normalised expected = true.
+Proof. exact worker_wiring_from_source. Qed.
+Print Assumptions C08_worker_wiring_from_source.
+
+Theorem C08_workers_return_their_errors :
+  guards_eq (guards_of 0) [(WCall "common.IsNamedPipe" [WVar "sshdLogFilePath"], true)] = true /\
+  guards_eq (guards_of 1) [(WCall "common.IsNamedPipe" [WVar "auditdLogFilePath"], true)] = true /\
+  guards_of 2 = [] /\
+  forallb (fun i => match ret_of i with Some (WMethod (WLit _ _ _) m _) => String.eqb m "Ingest" || String.eqb m "Read" | _ => false end)
+          [0; 1; 2] = true.
+Proof. exact workers_return_their_errors. Qed.
+Print Assumptions C08_workers_return_their_errors.
+
+Theorem C08_workers_run_on_group_context :
+  forallb (fun i => match ret_of i with Some (WMethod _ _ [WVar "groupCtx"]) => true | _ => false end) [0; 1; 2] = true /\
+  opt_weq (bind_opt (bind_opt (bind_opt (ret_of 0) recv_of) (field_of "SshdProcessor")) (field_of "ctx")) (WVar "groupCtx") = true /\
+  resolve_shared gen_shared "groupCtx" = Some (WResult (WCall "errgroup.WithContext" [WVar "ctx"]) 1) /\
+  resolve_shared gen_shared "eg" = Some (WResult (WCall "errgroup.WithContext" [WVar "ctx"]) 0).
+Proof. exact workers_run_on_group_context. Qed.
+Print Assumptions C08_workers_run_on_group_context.
